@@ -256,7 +256,7 @@ def _check_c08(plan):
     seen_forms = {}
     nsec = len(plan["secrets"])
     reported = {f["path"] for f in plan["files"] if any(
-        lv == "ERROR" and ("/simfs/" + f["path"]) in m.replace("/./", "/") for lv, m, tb in h["logs"])}
+        lv == "ERROR" and ("/simfs/" + f["path"]) in W.norm_paths(m) for lv, m, tb in h["logs"])}
     for path, n, ln, oline in _durable_lines(h, plan, "a"):
         if ln.get("kind") != "keep":
             continue
